@@ -522,8 +522,11 @@ func validateNames(b *backend, data *inputBundle, names []string) string {
 		// Variances are noted in-line
 
 		if data.role.AllowLocalhost {
-			if reducedName == "localhost" ||
-				reducedName == "localdomain" ||
+			// A wildcard such as "*.localhost" names the subdomains of
+			// localhost, not localhost itself; it is only covered by the
+			// AllowSubdomains tests below.
+			if (!isWildcard && reducedName == "localhost") ||
+				(!isWildcard && reducedName == "localdomain") ||
 				(isEmail && emailDomain == "localhost") ||
 				(isEmail && emailDomain == "localdomain") {
 				continue
